@@ -98,188 +98,21 @@ theorem tagsOK_tagRemove {ts : List Tag} {k : Key} (h : TagsOK ts) : TagsOK (tag
   unfold tagRemove
   exact List.Nodup.sublist (List.Sublist.map _ List.filter_sublist) h.1
 
-/-- the token change of one re-tagged feature, on the posting lists -/
-theorem retag_self {ix : List (Token × List Id)} {f : Feature} {tag : Tag}
-    (hok : TagsOK f.tags) (hk : keyOK tag.1)
-    (H : ∀ t, f.id ∈ postings ix t ↔ t ∈ tokensFor f) (t : Token) :
-    f.id ∈ postings (retagIndex ix f tag) t ↔ t ∈ tokensFor { f with tags := tagSet f.tags tag } := by
-  have hnew : t ∈ tokensFor { f with tags := tagSet f.tags tag } ↔
-      tokenForTag tag = some t ∨ ∃ tg ∈ f.tags, tg.1 ≠ tag.1 ∧ tokenForTag tg = some t := by
-    rw [mem_tokensFor]
-    constructor
-    · rintro ⟨tg, htg, ht⟩
-      rcases (mem_tagSet f.tags tag tg hok.1).1 htg with he | ⟨hm, hne⟩
-      · rw [he] at ht; exact Or.inl ht
-      · exact Or.inr ⟨tg, hm, hne, ht⟩
-    · rintro (h | ⟨tg, hm, hne, ht⟩)
-      · exact ⟨tag, (mem_tagSet f.tags tag tag hok.1).2 (Or.inl rfl), h⟩
-      · exact ⟨tg, (mem_tagSet f.tags tag tg hok.1).2 (Or.inr ⟨hm, hne⟩), ht⟩
-  have hold : ∀ t, f.id ∈ postings ix t ↔ ∃ tg ∈ f.tags, tokenForTag tg = some t := fun t => by
-    rw [H, mem_tokensFor]
-  rw [hnew]
-  unfold retagIndex tokenBefore
-  cases hg : AMap.get f.tags tag.1 with
-  | none =>
-    have hne := get_none_of_keys hg
-    cases ha : tokenForTag tag with
-    | none =>
-      simp only [retagTokens, hold]
-      constructor
-      · rintro ⟨tg, hm, ht⟩; exact Or.inr ⟨tg, hm, hne tg hm, ht⟩
-      · rintro (h | ⟨tg, hm, _, ht⟩)
-        · cases h
-        · exact ⟨tg, hm, ht⟩
-    | some ta =>
-      simp only [retagTokens, postings_indexAdd, hold, List.mem_singleton, and_true, Option.some.injEq]
-      constructor
-      · rintro (h | ⟨tg, hm, ht⟩)
-        · exact Or.inl h.symm
-        · exact Or.inr ⟨tg, hm, hne tg hm, ht⟩
-      · rintro (h | ⟨tg, hm, _, ht⟩)
-        · exact Or.inl h.symm
-        · exact Or.inr ⟨tg, hm, ht⟩
-  | some ov =>
-    have hmem : (tag.1, ov) ∈ f.tags := AMap.get_some_mem hg
-    have huniq : ∀ tg ∈ f.tags, tg.1 = tag.1 → tg = (tag.1, ov) := by
-      intro tg hm he
-      obtain ⟨a, b⟩ := tg
-      simp only at he
-      subst he
-      have := get_eq_some_of_mem hok.1 hm
-      rw [hg] at this
-      cases this; rfl
-    have hsome : (tokenForTag (tag.1, ov)).isSome = (tokenForTag tag).isSome := by
-      rw [tokenForTag_isSome, tokenForTag_isSome]
-    simp only
-    cases hb : tokenForTag (tag.1, ov) with
-    | none =>
-      cases ha : tokenForTag tag with
-      | some ta => rw [hb, ha] at hsome; cases hsome
-      | none =>
-        simp only [retagTokens, hold]
-        constructor
-        · rintro ⟨tg, hm, ht⟩
-          refine Or.inr ⟨tg, hm, fun he => ?_, ht⟩
-          rw [huniq tg hm he, hb] at ht; cases ht
-        · rintro (h | ⟨tg, hm, _, ht⟩)
-          · cases h
-          · exact ⟨tg, hm, ht⟩
-    | some tb =>
-      cases ha : tokenForTag tag with
-      | none => rw [hb, ha] at hsome; cases hsome
-      | some ta =>
-        simp only [retagTokens]
-        by_cases hne : tb ≠ ta
-        · simp only [hne, ne_eq, not_false_eq_true, ↓reduceIte, postings_indexAdd, postings_indexRemove,
-            List.mem_singleton, and_true, hold, Option.some.injEq]
-          constructor
-          · rintro (h | ⟨⟨tg, hm, ht⟩, hnb⟩)
-            · exact Or.inl h.symm
-            · refine Or.inr ⟨tg, hm, fun he => hnb ?_, ht⟩
-              rw [huniq tg hm he, hb] at ht
-              exact (Option.some.inj ht).symm
-          · rintro (h | ⟨tg, hm, hkne, ht⟩)
-            · exact Or.inl h.symm
-            · refine Or.inr ⟨⟨tg, hm, ht⟩, fun htb => hkne ?_⟩
-              rw [htb] at ht
-              exact token_key_inj (t2 := (tag.1, ov)) ht hb (hok.2 tg hm) hk
-        · have heq : tb = ta := Classical.not_not.1 hne
-          simp only [heq, ne_eq, not_true_eq_false, ↓reduceIte, hold, Option.some.injEq]
-          constructor
-          · rintro ⟨tg, hm, ht⟩
-            by_cases he : tg.1 = tag.1
-            · rw [huniq tg hm he, hb, heq] at ht; exact Or.inl (Option.some.inj ht)
-            · exact Or.inr ⟨tg, hm, he, ht⟩
-          · rintro (h | ⟨tg, hm, _, ht⟩)
-            · exact ⟨(tag.1, ov), hmem, by rw [hb, heq, h]⟩
-            · exact ⟨tg, hm, ht⟩
+/-- re-indexing one feature from the tokens it had to the tokens it has -/
+theorem reindex_self {ix : List (Token × List Id)} {id : Id} {before after : List Token}
+    (H : ∀ t, id ∈ postings ix t ↔ t ∈ before) (t : Token) :
+    id ∈ postings (reindex ix id before after) t ↔ t ∈ after := by
+  simp only [reindex, postings_indexAdd, postings_indexRemove, H, diffTokens, List.mem_filter,
+    List.contains_eq_mem, Bool.not_eq_true', decide_eq_false_iff_not, and_true]
+  by_cases h0 : t ∈ before <;> by_cases h1 : t ∈ after <;> simp [h0, h1]
 
-theorem retagTokens_other {ix : List (Token × List Id)} {id y : Id} (hy : y ≠ id) (a b : Option Token) (t : Token) :
-    y ∈ postings (retagTokens ix id a b) t ↔ y ∈ postings ix t := by
-  cases a <;> cases b <;> simp only [retagTokens]
-  · simp [postings_indexAdd, hy]
-  · simp [postings_indexRemove, hy]
-  · split
-    · simp [postings_indexAdd, postings_indexRemove, hy]
-    · rfl
+theorem reindex_other {ix : List (Token × List Id)} {id y : Id} {before after : List Token} (hy : y ≠ id) (t : Token) :
+    y ∈ postings (reindex ix id before after) t ↔ y ∈ postings ix t := by
+  simp [reindex, postings_indexAdd, postings_indexRemove, hy]
 
-theorem retagTokens_sorted {ix : List (Token × List Id)} {id : Id} (a b : Option Token)
-    (h : ∀ t, Sorted (postings ix t)) : ∀ t, Sorted (postings (retagTokens ix id a b) t) := by
-  cases a <;> cases b <;> simp only [retagTokens]
-  · exact h
-  · exact sorted_indexAdd _ _ _ h
-  · exact sorted_indexRemove _ _ _ h
-  · split
-    · exact sorted_indexAdd _ _ _ (sorted_indexRemove _ _ _ h)
-    · exact h
-
-/-- removing a tag, on the posting lists -/
-theorem untag_self {ix : List (Token × List Id)} {f : Feature} {k : Key}
-    (hok : TagsOK f.tags) (H : ∀ t, f.id ∈ postings ix t ↔ t ∈ tokensFor f) (t : Token) :
-    f.id ∈ postings (untagIndex ix f k) t ↔ t ∈ tokensFor { f with tags := tagRemove f.tags k } := by
-  have hnew : t ∈ tokensFor { f with tags := tagRemove f.tags k } ↔
-      ∃ tg ∈ f.tags, tg.1 ≠ k ∧ tokenForTag tg = some t := by
-    rw [mem_tokensFor]
-    constructor
-    · rintro ⟨tg, htg, ht⟩
-      exact ⟨tg, ((mem_tagRemove f.tags k tg).1 htg).1, ((mem_tagRemove f.tags k tg).1 htg).2, ht⟩
-    · rintro ⟨tg, hm, hne, ht⟩
-      exact ⟨tg, (mem_tagRemove f.tags k tg).2 ⟨hm, hne⟩, ht⟩
-  have hold : ∀ t, f.id ∈ postings ix t ↔ ∃ tg ∈ f.tags, tokenForTag tg = some t := fun t => by
-    rw [H, mem_tokensFor]
-  rw [hnew]
-  unfold untagIndex tokenBefore
-  cases hg : AMap.get f.tags k with
-  | none =>
-    have hne := get_none_of_keys hg
-    simp only [hold]
-    constructor
-    · rintro ⟨tg, hm, ht⟩; exact ⟨tg, hm, hne tg hm, ht⟩
-    · rintro ⟨tg, hm, _, ht⟩; exact ⟨tg, hm, ht⟩
-  | some ov =>
-    have huniq : ∀ tg ∈ f.tags, tg.1 = k → tg = (k, ov) := by
-      intro tg hm he
-      obtain ⟨a, b⟩ := tg
-      simp only at he
-      subst he
-      have := get_eq_some_of_mem hok.1 hm
-      rw [hg] at this
-      cases this; rfl
-    have hmem : (k, ov) ∈ f.tags := AMap.get_some_mem hg
-    simp only
-    cases hb : tokenForTag (k, ov) with
-    | none =>
-      simp only [hold]
-      constructor
-      · rintro ⟨tg, hm, ht⟩
-        refine ⟨tg, hm, fun he => ?_, ht⟩
-        rw [huniq tg hm he, hb] at ht; cases ht
-      · rintro ⟨tg, hm, _, ht⟩; exact ⟨tg, hm, ht⟩
-    | some tb =>
-      simp only [postings_indexRemove, List.mem_singleton, and_true, hold]
-      constructor
-      · rintro ⟨⟨tg, hm, ht⟩, hnb⟩
-        refine ⟨tg, hm, fun he => hnb ?_, ht⟩
-        rw [huniq tg hm he, hb] at ht
-        exact (Option.some.inj ht).symm
-      · rintro ⟨tg, hm, hkne, ht⟩
-        refine ⟨⟨tg, hm, ht⟩, fun htb => hkne ?_⟩
-        rw [htb] at ht
-        exact token_key_inj (t2 := (k, ov)) ht hb (hok.2 tg hm) (hok.2 (k, ov) hmem)
-
-theorem untag_other {ix : List (Token × List Id)} {f : Feature} {k : Key} {y : Id} (hy : y ≠ f.id) (t : Token) :
-    y ∈ postings (untagIndex ix f k) t ↔ y ∈ postings ix t := by
-  unfold untagIndex
-  split
-  · simp [postings_indexRemove, hy]
-  · rfl
-
-theorem untag_sorted {ix : List (Token × List Id)} {f : Feature} {k : Key}
-    (h : ∀ t, Sorted (postings ix t)) : ∀ t, Sorted (postings (untagIndex ix f k) t) := by
-  unfold untagIndex
-  split
-  · exact sorted_indexRemove _ _ _ h
-  · exact h
+theorem reindex_sorted {ix : List (Token × List Id)} {id : Id} {before after : List Token}
+    (h : ∀ t, Sorted (postings ix t)) : ∀ t, Sorted (postings (reindex ix id before after) t) :=
+  sorted_indexAdd _ _ _ (sorted_indexRemove _ _ _ h)
 
 /-- what the index says about one overlay feature -/
 theorem IndexInv.self {l : Layer} (h : IndexInv l) {id : Id} {f : Feature} (hf : AMap.get l.feats id = some f) (t : Token) :
@@ -310,7 +143,7 @@ theorem indexInv_same {l l' : Layer} (hs : l.Same l') (h : IndexInv l) : IndexIn
   rw [hs.index, hs.feats]; exact h.mem t y
 
 theorem indexInv_addTag {b : View} {l l' : Layer} {id : Id} {tag : Tag}
-    (hb : b.IdsOK) (hl : l.FeatsId) (hi : IndexInv l) (hok : l.TagsOK) (hk : keyOK tag.1)
+    (hb : b.IdsOK) (hl : l.FeatsId) (hi : IndexInv l)
     (h : l.addTag b id tag = .ok l') : IndexInv l' := by
   unfold Layer.addTag at h
   cases hf : AMap.get l.feats id with
@@ -318,17 +151,15 @@ theorem indexInv_addTag {b : View} {l l' : Layer} {id : Id} {tag : Tag}
     simp only [hf, Except.ok.injEq] at h
     subst h
     have hfid : f.id = id := hl id f hf
-    refine ⟨retagTokens_sorted _ _ hi.sorted, fun t y => ?_⟩
+    refine ⟨reindex_sorted hi.sorted, fun t y => ?_⟩
     simp only [AMap.get_set]
     by_cases hy : y = id
     · subst hy
       simp only [↓reduceIte, Option.some.injEq, exists_eq_left']
-      have := retag_self (ix := l.index) (hok y f hf) hk (fun t => by rw [hfid]; exact hi.self hf t) t
-      rw [hfid] at this
-      exact this
+      rw [hfid]
+      exact reindex_self (fun t => hi.self hf t) t
     · simp only [hy, ↓reduceIte]
-      unfold retagIndex
-      rw [retagTokens_other (by rw [hfid]; exact hy)]
+      rw [reindex_other (by rw [hfid]; exact hy)]
       exact hi.mem t y
   | none =>
     simp only [hf] at h
@@ -344,7 +175,7 @@ theorem indexInv_addTag {b : View} {l l' : Layer} {id : Id} {tag : Tag}
         exact ⟨hi.sorted, hi.mem⟩
 
 theorem indexInv_removeTag {b : View} {l l' : Layer} {id : Id} {key : Key}
-    (hb : b.IdsOK) (hl : l.FeatsId) (hi : IndexInv l) (hok : l.TagsOK)
+    (hb : b.IdsOK) (hl : l.FeatsId) (hi : IndexInv l)
     (h : l.removeTag b id key = .ok l') : IndexInv l' := by
   unfold Layer.removeTag at h
   cases hf : AMap.get l.feats id with
@@ -352,16 +183,15 @@ theorem indexInv_removeTag {b : View} {l l' : Layer} {id : Id} {key : Key}
     simp only [hf, Except.ok.injEq] at h
     subst h
     have hfid : f.id = id := hl id f hf
-    refine ⟨untag_sorted hi.sorted, fun t y => ?_⟩
+    refine ⟨reindex_sorted hi.sorted, fun t y => ?_⟩
     simp only [AMap.get_set]
     by_cases hy : y = id
     · subst hy
       simp only [↓reduceIte, Option.some.injEq, exists_eq_left']
-      have := untag_self (ix := l.index) (k := key) (hok y f hf) (fun t => by rw [hfid]; exact hi.self hf t) t
-      rw [hfid] at this
-      exact this
+      rw [hfid]
+      exact reindex_self (fun t => hi.self hf t) t
     · simp only [hy, ↓reduceIte]
-      rw [untag_other (by rw [hfid]; exact hy)]
+      rw [reindex_other (by rw [hfid]; exact hy)]
       exact hi.mem t y
   | none =>
     simp only [hf] at h
@@ -444,6 +274,13 @@ theorem sorted_foldCopies (cs : List Feature) :
     simp only [List.foldl_cons]
     exact ih _ (sorted_indexAdd _ _ _ h) t
 
+theorem existingTokens_spec {l : Layer} (hi : IndexInv l) (id : Id) (t : Token) :
+    id ∈ postings l.index t ↔ t ∈ existingTokens l id := by
+  unfold existingTokens
+  cases he : AMap.get l.feats id with
+  | some e => exact hi.self he t
+  | none => simp [hi.absent he t]
+
 theorem indexInv_commit {l : Layer} {f : Feature} {rs : List FV} (hi : IndexInv l) : IndexInv (l.commit f rs) := by
   have hc := copy_fold f.id rs (l, [])
   obtain ⟨news, hn1, hn2, hn3⟩ := copy_fold2 f.id rs (l, [])
@@ -454,25 +291,16 @@ theorem indexInv_commit {l : Layer} {f : Feature} {rs : List FV} (hi : IndexInv 
   · intro t
     simp only [Layer.commit]
     apply sorted_foldCopies
-    exact sorted_indexAdd _ _ _ (sorted_indexRemove _ _ _ (by rw [hidx]; exact hi.sorted))
-  · simp only [Layer.commit, mem_foldCopies, postings_indexAdd, postings_indexRemove, AMap.get_set, hidx, hcopies]
+    exact reindex_sorted (by rw [hidx]; exact hi.sorted)
+  · simp only [Layer.commit, mem_foldCopies, AMap.get_set, hidx, hcopies]
     by_cases hy : y = f.id
     · subst hy
-      simp only [and_true, ↓reduceIte, Option.some.injEq, exists_eq_left']
+      simp only [↓reduceIte, Option.some.injEq, exists_eq_left']
       have hcopy : ¬ ∃ c ∈ news, c.id = f.id ∧ t ∈ tokensFor c := by
         rintro ⟨c, hcm, he, _⟩; exact (hn2 c hcm).2.2 he
-      have hold : f.id ∈ postings l.index t ↔
-          t ∈ existingTokens l f.id := by
-        unfold existingTokens
-        cases he : AMap.get l.feats f.id with
-        | some e => exact hi.self he t
-        | none => simp [hi.absent he t]
-      simp only [hcopy, or_false, hold, diffTokens, List.mem_filter, List.contains_eq_mem, Bool.not_eq_true',
-        decide_eq_false_iff_not, decide_eq_true_eq]
-      by_cases h0 : t ∈ existingTokens l f.id
-      · by_cases h1 : t ∈ tokensFor f <;> simp [h0, h1]
-      · by_cases h1 : t ∈ tokensFor f <;> simp [h0, h1]
-    · simp only [hy, and_false, false_or, not_false_eq_true, and_true, ↓reduceIte]
+      simp only [hcopy, or_false]
+      exact reindex_self (fun t => existingTokens_spec hi f.id t) t
+    · simp only [hy, ↓reduceIte, reindex_other hy]
       constructor
       · rintro (h | ⟨c, hcm, he, ht⟩)
         · obtain ⟨g, hg, ht⟩ := (hi.mem t y).1 h
@@ -625,7 +453,7 @@ theorem modsOK_adopt {l : Layer} {f : Feature} (hm : l.ModsOK) : (l.adopt f).Mod
 theorem wf_addTag {b : View} {l l' : Layer} {id : Id} {tag : Tag}
     (hb : b.IdsOK) (hbt : b.TagsOK) (hw : l.WF b) (hk : keyOK tag.1)
     (h : l.addTag b id tag = .ok l') : l'.WF b := by
-  refine ⟨featsId_addTag hw.featsId h, indexInv_addTag hb hw.featsId hw.index hw.tags hk h, ?_, ?_⟩
+  refine ⟨featsId_addTag hw.featsId h, indexInv_addTag hb hw.featsId hw.index h, ?_, ?_⟩
   · unfold Layer.addTag at h
     cases hf : AMap.get l.feats id with
     | some f =>
@@ -662,13 +490,15 @@ theorem wf_addTag {b : View} {l l' : Layer} {id : Id} {tag : Tag}
           simp only [modsOf_modsSet]
           by_cases hid : id' = id
           · simp only [hid, ↓reduceIte]
-            exact modsOK1_set (hw.mods id) hk (by simpa using hplain)
+            exact modsOK1_set (hw.mods id) hk (by
+              have : copyOnAdd fv.f tag.1 = false := by simpa using hplain
+              simp only [copyOnAdd, Bool.or_eq_false_iff] at this; exact this.1)
           · simp only [hid, ↓reduceIte]; exact hw.mods id'
 
 theorem wf_removeTag {b : View} {l l' : Layer} {id : Id} {key : Key}
     (hb : b.IdsOK) (hbt : b.TagsOK) (hw : l.WF b)
     (h : l.removeTag b id key = .ok l') : l'.WF b := by
-  refine ⟨featsId_removeTag hw.featsId h, indexInv_removeTag hb hw.featsId hw.index hw.tags h, ?_, ?_⟩
+  refine ⟨featsId_removeTag hw.featsId h, indexInv_removeTag hb hw.featsId hw.index h, ?_, ?_⟩
   · unfold Layer.removeTag at h
     cases hf : AMap.get l.feats id with
     | some f =>
@@ -711,7 +541,9 @@ theorem wf_removeTag {b : View} {l l' : Layer} {id : Id} {key : Key}
             simp only [modsOf_modsSet]
             by_cases hid : id' = id
             · simp only [hid, ↓reduceIte]
-              exact modsOK1_set (hw.mods id) hkey (by simpa using hplain)
+              exact modsOK1_set (hw.mods id) hkey (by
+                have : copyOnRemove fv.f key = false := by simpa using hplain
+                simp only [copyOnRemove, Bool.or_eq_false_iff] at this; exact this.1)
             · simp only [hid, ↓reduceIte]; exact hw.mods id'
 
 theorem wf_same {b : View} {l l' : Layer} (hs : l.Same l') (hw : l.WF b) : l'.WF b :=
